@@ -163,6 +163,15 @@ MANIFEST_TEXT["C20"] = dict(
     technique="Kani/CBMC bounded model checking (SAT) of the real serialize/cell_to_parent/get_stride/is_first_child over symbolic cell tuples",
 )
 
+CMPF = "7compact7compact"
+
+
+def cmp_unwind(n, passes=2):
+    """compact loops in source order: rank 0 `while changed` (passes+1), rank 1 scan (n+1 iterations incl. exit),
+    rank 2 sibling probe `for j in 1..expected` (≤ min(n,12)−1 iterations)."""
+    return [(CMPF, 0, passes + 1), (CMPF, 1, n + 1), (CMPF, 2, min(n, 12) + 1)]
+
+
 # ------------------------------------------------------------------------------------------ C14
 LOOKUP_STUBS = ["a5::core::cell::lonlat_to_estimate ↦ any in-range estimate (nondeterministic)",
                 "a5::core::cell::a5cell_contains_point ↦ constant Ok(1.0) (first probe hits)"]
@@ -186,8 +195,8 @@ PROPERTIES["C14"] = dict(
           functions=HIER, bounds="classes with fan-out ≤ 4 (loops 1×1×4)", unwindset=ch_unwind(1, 1, 4), deps=["oracle_valid_equiv"], mem_gb=16, timeout=1500),
         H("c14_children_d1", "c14", [Q, T], "∀ u64 with res 1..28 (canonical or alias), target None/Some(res+1): Err (non-cell) or 4 canonical children",
           functions=HIER, bounds="fan-out 4", unwindset=ch_unwind(1, 1, 4), deps=["oracle_valid_equiv"], mem_gb=24, timeout=1500),
-        H("c14_children_world_alias", "c14", [Q, T], "∀ world-cell aliases (no marker bit): children None/Some(0) = 12 canonical base cells; parent(−1) = world",
-          functions=HIER, bounds="fan-out 12", unwindset=ch_unwind(12, 1, 1), deps=["oracle_valid_equiv"], mem_gb=16, timeout=1500),
+        H("c14_children_world_alias", "c14", [T], "∀ world-cell aliases (no marker bit): children None/Some(0) = 12 canonical base cells; parent(−1) = world",
+          functions=HIER, bounds="fan-out 12", unwindset=ch_unwind(12, 1, 1), deps=["oracle_valid_equiv"], mem_gb=40, mem_est=28, timeout=3600),
         H("c14_counts", "c14", [Q, T], "∀ i32 (×3): get_num_cells, cell_area, get_num_children never panic; in-range values follow the hierarchy",
           functions=["a5::core::cell_info::get_num_cells", "a5::core::cell_info::cell_area", "a5::core::cell_info::get_num_children"], bounds="none", exhaustive=True),
         H("c14_uncompact_args", "c14", [Q, T], "∀ u64 × ∀ i32 target with target ≤ res or target > 29: uncompact never panics; Err ⇔ target<res or target ∉ −1..29",
@@ -195,9 +204,11 @@ PROPERTIES["C14"] = dict(
         H("c14_uncompact_d1", "c14", [T], "∀ u64 with res 1..28, target res+1: Err (non-cell) or 4 canonical cells of the target resolution",
           functions=["a5::core::compact::uncompact"] + HIER, bounds="one input cell; fan-out 4", unwindset=ch_unwind(1, 1, 4), mem_gb=45, timeout=3600),
         H("c14_compact_any4", "c14", [T], "∀ 4 arbitrary u64 (strictly increasing): compact terminates, no overflow/OOB; Err only if some input is a non-cell",
-          functions=["a5::core::compact::compact"] + ORD, bounds="N=4; passes ≤ 3", mem_gb=30, timeout=3600, kani_args=[]),
-        H("c14_compact_lowres5", "c14", [Q, T], "∀ 5 arbitrary u64 of apparent resolution ≤ 1 (strictly increasing): compact has no overflow in cell + j·stride, terminates",
-          functions=["a5::core::compact::compact"] + ORD, bounds="N=5, apparent resolution ≤ 1", mem_gb=30, timeout=2400),
+          functions=["a5::core::compact::compact"] + ORD, bounds="N=4; passes ≤ 2", unwindset=cmp_unwind(4), mem_gb=30, timeout=3600),
+        H("c14_compact_r1_clean5", "c14", [Q, T], "∀ 5 IDs with marker at bit 56 and clean low bits, any top-6 code 0..63 (strictly increasing): no overflow in cell + j·stride; Err only if some input is a non-cell",
+          functions=["a5::core::compact::compact"] + ORD, bounds="N=5, IDs of the form code<<58|1<<56; passes ≤ 2", unwindset=cmp_unwind(5), mem_gb=24, mem_est=10, timeout=2400, assumes=COMPACT_STUBS),
+        H("c14_compact_lowres5", "c14", [T], "∀ 5 arbitrary u64 of apparent resolution ≤ 1 (strictly increasing): compact has no overflow in cell + j·stride, terminates",
+          functions=["a5::core::compact::compact"] + ORD, bounds="N=5, apparent resolution ≤ 1; passes ≤ 2", unwindset=cmp_unwind(5), mem_gb=30, timeout=3600),
         H("c14_lookup_hit", "c14", [Q, T], "∀ finite lon/lat × ∀ i32 r (first probe hits): Ok(id) ⇒ res(id)=r∈−1..29, canonical; Err ⇔ r∉−1..29",
           functions=LK, bounds="search loop returns on its first probe (containment stub)", mem_gb=16, timeout=1800),
     ] + [
@@ -279,6 +290,8 @@ PROPERTIES["C18"] = dict(
     harnesses=[
         H("c18_relabel", "c18", [Q, T], "∀ face<12, q<5: segment_to_quintant∘quintant_to_segment = id (and the converse), orientation preserved, both maps are permutations of 0..4; first_quintant = frozen table",
           functions=["a5::core::origin::quintant_to_segment", "a5::core::origin::segment_to_quintant", "a5::core::origin::get_origins"], bounds="none: all 60 (face, quintant) pairs × second quintant", exhaustive=True),
+        H("c18_relabel_seq", "c18", [Q, T], "∀ two (face, quintant) pairs queried in sequence (f1, f2, f1 again): round trips hold and the answers for f1 do not change after f2 was queried (no dependence on call history)",
+          functions=["a5::core::origin::quintant_to_segment", "a5::core::origin::segment_to_quintant"], bounds="none: all 60×60 ordered pairs", exhaustive=True, timeout=1500),
         H("c18_frame", "c18", [Q, T], "∀ face pairs i,j: centre_i·centre_j ∈ {1,−1,±1/√5} (1e-12), =1 iff i=j, exactly one antipode and five 63.435° neighbours per face, face 0 = north pole, unit quaternions, inverse = conjugate",
           functions=["a5::core::origin::get_origins (generate_origins)", "a5::core::dodecahedron_quaternions::QUATERNIONS"], bounds="none: all 144 pairs", exhaustive=True, timeout=1200),
         H("c18_axis_table", "c18", [Q, T], "∀ face: stored axis (θ,φ) = documented frame (pole; 72°-spaced ring at 63.435°; ring offset 36° at 116.565°; south pole) in curve order",
@@ -339,7 +352,7 @@ CDEPS = ["oracle_res_equiv", "oracle_valid_equiv", "oracle_covers_equiv"]
 
 def c08c(n, tiers, timeout, mem, est):
     return H(f"c08_cover_{n}", "c08", tiers, f"∀ strictly increasing {n}-tuple of valid cells (any resolutions 0..29, overlaps allowed), ∀ valid resolution-29 cell y: (∃ input covers y) = (∃ output covers y); output valid, pairwise distinct, len ≤ {n}",
-             functions=CMP, bounds=f"N={n} cells; passes ≤ 13 (unwinding assertions on)", assumes=[SORTED] + COMPACT_STUBS, deps=CDEPS, timeout=timeout, mem_gb=mem, mem_est=est)
+             functions=CMP, bounds=f"N={n} cells; passes ≤ 2 (a deeper cascade needs ≥ 7 cells; unwinding assertions on)", unwindset=cmp_unwind(n), assumes=[SORTED] + COMPACT_STUBS, deps=CDEPS, timeout=timeout, mem_gb=mem, mem_est=est)
 
 
 PROPERTIES["C08"] = dict(
@@ -349,10 +362,12 @@ PROPERTIES["C08"] = dict(
     outside_claim=["N above the bound (quick 3, thorough 5)", "order/multiplicity independence beyond N=2 (std trusted)", "cascades deeper than the pass bound"],
     harnesses=[oracle("oracle_res_equiv"), oracle("oracle_valid_equiv"), oracle("oracle_covers_equiv"),
                c08c(2, [Q, T], 1200, 12, 4), c08c(3, [Q, T], 2400, 24, 12), c08c(4, [T], 5400, 40, 16), c08c(5, [T], 7200, 45, 20),
-               H("c08_group4_merges", "c08", [Q, T], "∀ valid parent p (r 1..28): compact(its 4 children) = [p]", functions=CMP, bounds="N=4 built from one symbolic parent", assumes=COMPACT_STUBS, timeout=2400, mem_gb=24, mem_est=10),
-               H("c08_prelude_2", "c08", [Q, T], "∀ two arbitrary valid cells (unsorted, possibly equal): compact([a,b]) = compact([b,a]) = compact([a,a,b]), sorted, deduplicated",
-                 functions=CMP, bounds="N=2 (3 with the duplicate)", assumes=["real set membership test (ASSUME_UNIQUE off)", "sort_unstable ↦ bounded insertion sort with the same contract", COMPACT_STUBS[2]], timeout=2400, mem_gb=24, mem_est=10),
-               H("c08_unsorted_4", "c08", [T], "input strictly decreasing, sort stub = reverse: coverage preserved and 4 siblings still merge (detects a dropped/misplaced sort)", functions=CMP, bounds="N=4",
+               H("c08_group4_merges", "c08", [Q, T], "∀ valid parent p (r 1..28): compact(its 4 children) = [p]", functions=CMP, bounds="N=4 built from one symbolic parent; passes ≤ 2", unwindset=cmp_unwind(4), assumes=COMPACT_STUBS, timeout=2400, mem_gb=24, mem_est=10),
+               H("c08_prelude_swap", "c08", [Q, T], "∀ two arbitrary valid cells (unsorted, possibly equal): compact([a,b]) = compact([b,a]), sorted, deduplicated",
+                 functions=CMP, bounds="N=2", unwindset=cmp_unwind(2, 1), assumes=["real set membership test (ASSUME_UNIQUE off)", "sort_unstable ↦ bounded insertion sort with the same contract", COMPACT_STUBS[2]], timeout=2400, mem_gb=30, mem_est=14),
+               H("c08_prelude_dup", "c08", [Q, T], "∀ two arbitrary valid cells: compact([a,a,b]) = compact([a,b,a]) = compact([a,b])",
+                 functions=CMP, bounds="N=3 with one duplicate", unwindset=cmp_unwind(3, 1), assumes=["real set membership test (ASSUME_UNIQUE off)", "sort_unstable ↦ bounded insertion sort with the same contract", COMPACT_STUBS[2]], timeout=2400, mem_gb=30, mem_est=14),
+               H("c08_unsorted_4", "c08", [T], "input strictly decreasing, sort stub = reverse: coverage preserved and 4 siblings still merge (detects a dropped/misplaced sort)", functions=CMP, bounds="N=4", unwindset=cmp_unwind(4),
                  assumes=["sort_unstable ↦ reverse (a correct sort for strictly decreasing input)"] + COMPACT_STUBS[1:], timeout=5400, mem_gb=40, mem_est=16),
                ],
 )
@@ -395,13 +410,13 @@ PROPERTIES["C10"] = dict(
     outside_claim=["N above the bound (4–5)", "sets containing cells of resolution < 2 together with a complete low-resolution sibling group need N ≥ 6: outside the solver bound — the known r ≤ 1 defect is carried by native witness replay (known_findings.json)"],
     harnesses=[oracle("oracle_res_equiv"), oracle("oracle_valid_equiv"), oracle("oracle_covers_equiv"), 
                H("oracle_child_equiv", "oracles", [Q, T], "∀ valid cell(1..28), k<4: spec_child(id,k) = serialize(child k)", functions=SER, bounds="none", exhaustive=True),
-               H("c10_max_4", "c10", [Q, T], "∀ non-overlapping strictly increasing 4-tuple, ∀ valid parent p: output never contains all children of p", functions=CMP, bounds="N=4", assumes=COMPACT_STUBS, deps=CDEPS, timeout=5400, mem_gb=40, mem_est=16),
-               H("c10_max_5_hi", "c10", [T], "same, N=5, resolutions ≥ 2", functions=CMP, bounds="N=5, r≥2", assumes=COMPACT_STUBS, deps=CDEPS, timeout=7200, mem_gb=45, mem_est=24),
-               H("c10_max_5", "c10", [T], "same, N=5, all resolutions 0..29 (includes 5 quintants of one face)", functions=CMP, bounds="N=5", assumes=COMPACT_STUBS, deps=CDEPS, timeout=7200, mem_gb=45, mem_est=24),
-               H("c10_idem_4_hi", "c10", [T], "∀ non-overlapping 4-tuple at r≥2: result sorted; compact(compact(x)) = compact(x) as vectors", functions=CMP, bounds="N=4, r≥2", assumes=COMPACT_STUBS, timeout=7200, mem_gb=45, mem_est=24),
-               H("c10_idem_4", "c10", [T], "same, all resolutions", functions=CMP, bounds="N=4", assumes=COMPACT_STUBS, timeout=7200, mem_gb=45, mem_est=24),
-               H("c10_split_1", "c10", [Q, T], "∀ valid x (r 1..28): compact(children of x) = compact([x])", functions=CMP, bounds="1 → 4 cells", assumes=COMPACT_STUBS, deps=["oracle_child_equiv"], timeout=3600, mem_gb=30, mem_est=12),
-               H("c10_split_2", "c10", [T], "∀ non-overlapping pair, ∀ i: replacing x[i] by its 4 children gives the same compacted vector", functions=CMP, bounds="2 → 5 cells", assumes=COMPACT_STUBS, deps=["oracle_child_equiv"], timeout=7200, mem_gb=45, mem_est=24),
+               H("c10_max_4", "c10", [Q, T], "∀ non-overlapping strictly increasing 4-tuple, ∀ valid parent p: output never contains all children of p", functions=CMP, bounds="N=4", unwindset=cmp_unwind(4), assumes=COMPACT_STUBS, deps=CDEPS, timeout=5400, mem_gb=40, mem_est=16),
+               H("c10_max_5_hi", "c10", [T], "same, N=5, resolutions ≥ 2", functions=CMP, bounds="N=5, r≥2", unwindset=cmp_unwind(5), assumes=COMPACT_STUBS, deps=CDEPS, timeout=7200, mem_gb=45, mem_est=24),
+               H("c10_max_5", "c10", [T], "same, N=5, all resolutions 0..29 (includes 5 quintants of one face)", functions=CMP, bounds="N=5", unwindset=cmp_unwind(5), assumes=COMPACT_STUBS, deps=CDEPS, timeout=7200, mem_gb=45, mem_est=24),
+               H("c10_idem_4_hi", "c10", [T], "∀ non-overlapping 4-tuple at r≥2: result sorted; compact(compact(x)) = compact(x) as vectors", functions=CMP, bounds="N=4, r≥2", unwindset=cmp_unwind(4), assumes=COMPACT_STUBS, timeout=7200, mem_gb=45, mem_est=24),
+               H("c10_idem_4", "c10", [T], "same, all resolutions", functions=CMP, bounds="N=4", unwindset=cmp_unwind(4), assumes=COMPACT_STUBS, timeout=7200, mem_gb=45, mem_est=24),
+               H("c10_split_1", "c10", [Q, T], "∀ valid x (r 1..28): compact(children of x) = compact([x])", functions=CMP, bounds="1 → 4 cells", unwindset=cmp_unwind(4), assumes=COMPACT_STUBS, deps=["oracle_child_equiv"], timeout=3600, mem_gb=30, mem_est=12),
+               H("c10_split_2", "c10", [T], "∀ non-overlapping pair, ∀ i: replacing x[i] by its 4 children gives the same compacted vector", functions=CMP, bounds="2 → 5 cells", unwindset=cmp_unwind(5), assumes=COMPACT_STUBS, deps=["oracle_child_equiv"], timeout=7200, mem_gb=45, mem_est=24),
                ],
 )
 MANIFEST_TEXT["C10"] = dict(
